@@ -11,6 +11,7 @@ from ..lib import load
 from . import common as C
 
 ID = "C20"
+SENTINEL = True      # prelude cases (factory objects used and moved) are judged by the global-state sentinel here
 HASH_ADMISSION = False   # snapshots are exact; only the history-independence clause honours the hash-boundary flag
 BUDGET = {"quick": 2400, "thorough": 60000}
 SOFT = {"quick": 80, "thorough": 560}
